@@ -12,6 +12,7 @@
 #include <ompl/base/samplers/MaximizeClearanceValidStateSampler.h>
 #include <ompl/base/samplers/MinimumClearanceValidStateSampler.h>
 #include <ompl/base/samplers/DeterministicStateSampler.h>
+#include <ompl/base/PrecomputedStateSampler.h>
 #include <ompl/util/Console.h>
 
 using namespace vsp;
@@ -537,6 +538,77 @@ static void runHalton(const vf::Args &a, vf::Report &rep)
     rep.bounds["halton_prefix"] = std::to_string(N);
 }
 
+// ---- PrecomputedStateSampler: samples are drawn from a given list of in-bounds states (index ranges incl. single-element ones) ----
+static void runPrecomputed(const vf::Args &, vf::Report &rep)
+{
+    for (const char *spn : {"R2", "SE2", "SO2"})
+    {
+        SpaceCfg c = makeSpace(spn, 2);
+        Pool P(c);
+        auto &sp = c.space;
+        std::vector<const ob::State *> list;
+        for (size_t i = 0; i < P.st.size() && list.size() < 4; i += std::max<size_t>(1, P.st.size() / 4))
+            list.push_back(P.st[i]);
+        size_t n = list.size();
+        ob::State *out = sp->allocState();
+        for (auto range : std::vector<std::pair<size_t, size_t>>{{0, n - 1}, {0, 0}, {n - 1, n - 1}, {1, n > 2 ? n - 2 : 1}})
+        {
+            if (range.second >= n || range.first > range.second)
+                continue;
+            ob::PrecomputedStateSampler smp(sp.get(), list, range.first, range.second);
+            for (int mode = 0; mode < 3; ++mode)
+                for (size_t ci : {(size_t)0, P.st.size() - 1})
+                    for (double dist : {0.0, 1e-9, 0.4, 3.0})
+                    {
+                        if (mode == 0 && (ci || dist != 0.0))
+                            continue;
+                        auto run = [&](const std::map<size_t, int> &dev) {
+                            vc::Oracle o;
+                            o.dev = dev;
+                            o.horizon = 100;
+                            vc::Install inst(o);
+                            std::string rj = "{\"mode\":\"precomputed\",\"space\":" + vf::jesc(spn) + ",\"first\":" + std::to_string(range.first) + ",\"last\":" + std::to_string(range.second) + ",\"call\":" + std::to_string(mode) + ",\"centre\":" + std::to_string(ci) + ",\"dist\":" + vf::jnum(dist) + ",\"dev\":" + vc::devJson(dev) + "}";
+                            long a0 = vf::asanErrorCount();
+                            if (mode == 0)
+                                smp.sampleUniform(out);
+                            else if (mode == 1)
+                                smp.sampleUniformNear(out, P.st[ci], dist);
+                            else
+                                smp.sampleGaussian(out, P.st[ci], dist);
+                            rep.evaluations++;
+                            rep.transitions++;
+                            if (vf::asanErrorCount() != a0)
+                                rep.fail("C08|precomputed-sampler|memory", "AddressSanitizer report inside the precomputed state sampler", rj);
+                            else if (!sp->satisfiesBounds(out))
+                                rep.fail(std::string("C08|precomputed-sampler|out-of-bounds|") + (mode == 0 ? "uniform" : mode == 1 ? "near" : "gaussian") + "|" + spn, "sample " + cstr(getCoords(sp, out)) + " violates the bounds", rj);
+                            else if (mode == 0)
+                            {
+                                bool member = false;
+                                for (size_t k = range.first; k <= range.second; ++k)
+                                    member = member || sp->equalStates(out, list[k]);
+                                if (!member)
+                                    rep.fail("C08|precomputed-sampler|not-from-the-range", "sampleUniform returned a state outside the configured index range", rj);
+                            }
+                            vf::Hash h;
+                            h.adds(rj);
+                            if (!dev.empty())
+                                rep.nontrivial.insert(h.h);
+                            vf::Hash oh;
+                            for (double d : getCoords(sp, out))
+                                oh.addd(d);
+                            rep.outcomes.insert(oh.h);
+                            return o.trace;
+                        };
+                        vc::Product prod;
+                        prod.depth = 3;
+                        prod.explore(run);
+                    }
+        }
+        sp->freeState(out);
+        rep.states++;
+    }
+}
+
 int main(int argc, char **argv)
 {
     ompl::msg::setLogLevel(ompl::msg::LOG_NONE);
@@ -557,6 +629,7 @@ int main(int argc, char **argv)
         }
         j.push_back("rng-ranges");
         j.push_back("halton");
+        j.push_back("precomputed");
         for (const char *k : {"uniform", "gaussian", "obstacle", "bridge", "maxclear", "minclear"})
             for (const char *s : {"R2", "SE2"})
                 j.push_back(std::string("valid-") + k + "-" + s);
@@ -571,6 +644,8 @@ int main(int argc, char **argv)
             runRngRanges(a, r);
         else if (job == "halton")
             runHalton(a, r);
+        else if (job == "precomputed")
+            runPrecomputed(a, r);
         else
             runValid(job, a, r);
         r.rule = "enforceBounds: lattice states + (products of) wild per-coordinate alphabets (many periods away, +-pi, +-1ulp outside, 1e300, denormalised/near-zero quaternions, out-of-range "
@@ -594,6 +669,8 @@ int main(int argc, char **argv)
             runRngRanges(a, r);
         else if (mode == "halton")
             runHalton(a, r);
+        else if (mode == "precomputed")
+            runPrecomputed(a, r);
         else
             runValid(v["job"].s, a, r);
         for (auto &f : r.failures)
